@@ -215,7 +215,7 @@ type world struct {
 	scn   scnJ
 	users []credJ
 	creds []credJ
-	hist  []json.RawMessage
+	hist  []vio.Step
 
 	realC, realS bool
 	cEnd, sEnd   *end
@@ -571,6 +571,11 @@ func (w *world) checkServerOutput() {
 					return
 				}
 			}
+			if w.sDone && w.sErr == nil && w.scn.Auth && !w.anyMatchingCred() {
+				w.violation("auth-bypass", "authentication is on and no presented credential pair matches a configured user, yet the server accepted the request for %s as user %q",
+					w.sReq.Addr, w.sReq.Username)
+				return
+			}
 			w.judged("reply-missing", "server wrote %d bytes %x, the model expects %d bytes %x", len(real), trunc(real), len(want), trunc(want))
 			return
 		}
@@ -581,13 +586,29 @@ func (w *world) checkServerOutput() {
 		}
 		if w.scn.Proto == "http" {
 			if rs, ms := statusOf(r), statusOf(m.bytes); rs != ms {
-				w.judged("reply-mismatch", "server answered status %d, the model expects %d", rs, ms)
+				switch {
+				case ms == 407:
+					w.judged("auth-bypass", "the request carries no credentials of a configured user; the server answered %d instead of 407", rs)
+				case rs == 407:
+					w.judged("auth-valid-refused", "the server answered 407 to a request carrying the credentials of a configured user")
+				default:
+					w.judged("reply-mismatch", "server answered status %d, the model expects %d", rs, ms)
+				}
 			} else {
 				w.drift("reply-text", "server response %q differs from the model's %q", r, m.bytes)
 			}
 			return
 		}
 		n := min(len(r), 2)
+		if len(m.bytes) == 2 && r[0] == socks5.UsernamePasswordAuthVersion && m.bytes[0] == r[0] && r[1] != m.bytes[1] && w.inDomain() {
+			// RFC 1929 status
+			if r[1] == 0 {
+				w.violation("auth-bypass", "the presented credentials match no configured user, yet the server answered the authentication with status 0")
+			} else {
+				w.violation("auth-valid-refused", "the presented credentials are those of a configured user, yet the server answered status %d", r[1])
+			}
+			return
+		}
 		if !bytes.Equal(r[:n], m.bytes[:n]) {
 			w.judged("reply-mismatch", "server message %x, the model expects %x (VER/METHOD, VER/STATUS or VER/REP differ)", r, m.bytes)
 		} else {
@@ -596,6 +617,10 @@ func (w *world) checkServerOutput() {
 		return
 	}
 	if len(real) > len(want) {
+		if w.scn.Proto == "http" && statusOf(real[len(want):]) == 407 {
+			w.judged("auth-valid-refused", "the server answered 407 to a request carrying the credentials of a configured user (or with authentication off)")
+			return
+		}
 		w.judged("reply-extra", "server wrote %d bytes more than the model: %x", len(real)-len(want), trunc(real[len(want):]))
 		return
 	}
@@ -951,7 +976,7 @@ func runMode(t *testing.T, in *vio.Input, res *vio.Result, bi int, b vio.Behavio
 				res.Break("behaviour %d step %d: %v", bi, si, err)
 				return
 			}
-			w.hist = append(w.hist, st.A)
+			w.hist = append(w.hist, st)
 			if isEnv(a.N) {
 				w.compare(prev)
 				if w.stopped {
